@@ -1,11 +1,12 @@
 (* SQLITE layer, C02: lifting the per-action simulation lemmas over plans and histories (induction, no bound on the
-   number of tables, actions or migrations).  PARTIAL: [step_hyp] admits the action kinds for which a simulation lemma is
-   proved (CreateTable outside the explicit-CHECK class, DeleteTable, AddConstraint of an index / unique,
-   ModifyColumnNullable / Default / Type, RawSql) under decidable side conditions (A2, A3, A5); AddColumn, DeleteColumn,
-   RenameTable / RenameColumn, RemoveConstraint, AddConstraint of a key / foreign key / check and ModifyColumnComment are
-   not covered yet. *)
+   number of tables, actions or migrations).  PARTIAL: [step_hyp] admits, under decidable side conditions (A2, A3, A5 and
+   "outside the known classes"): CreateTable (no explicit CHECK), DeleteTable, AddColumn (ALTER path and rebuild path, no
+   unpaired inline constraint), DeleteColumn (rebuild path), ModifyColumnType / Nullable / Default / Comment, AddConstraint
+   (index / unique; key / foreign key / check through the rebuild with merge_constraint and the pending set),
+   RemoveConstraint (index; unique / foreign key / check), RenameTable (no derived names, not referenced), RawSql.
+   Not covered: RenameColumn, DeleteColumn through ALTER TABLE DROP COLUMN, RemoveConstraint of a primary key. *)
 From Coq Require Import Lia Permutation.
-From VV.SQLITE Require Import Corr Known RowsP RebuildP SimP Sim2P.
+From VV.SQLITE Require Import Corr Known RowsP RebuildP SimP Sim2P Sim4P Sim5P Sim6P Sim7P.
 
 Definition no_explicit_checks (n : table_def) : bool :=
   match explicit_checks (t_constraints n) with [] => true | _ => false end.
@@ -14,7 +15,14 @@ Definition rebuild_hyp (s : schema) (t : string) (td' : table_def -> table_def) 
   (ci_exact s t && temp_free s t && unique_table s t
    && match find_table t s with Some td => pk_sane (td' td) | None => false end)%bool.
 
-Definition step_hyp (s : schema) (a : action) : bool :=
+Definition base_hyp (s : schema) (t : string) : bool := (ci_exact s t && temp_free s t && unique_table s t)%bool.
+
+(* DeleteColumn takes the rebuild path (delete_column.rs:34-68) *)
+Definition delcol_takes_temp (td : table_def) (t col : string) : bool :=
+  (match find_col col (t_columns td) with Some cd => is_enum_type (c_type cd) | None => false end
+   || match delete_column_scan t col (t_constraints td) [] with DcTemp => true | DcDrops _ => false end)%bool.
+
+Definition step_hyp (s : schema) (r : list action) (a : action) : bool :=
   match a with
   | CreateTable t cols cs =>
       match normalize (mkTable t None cols cs) with
@@ -22,18 +30,63 @@ Definition step_hyp (s : schema) (a : action) : bool :=
       | Err _ => false
       end
   | DeleteTable t => ci_exact s t
-  | AddConstraint t k => (index_like k && ci_exact s t)%bool
+  | AddColumn t col _ =>
+      match find_table t s with
+      | Some td =>
+          (add_column_stable td col &&
+           if (negb (c_nullable col) || is_enum_type (c_type col))%bool
+           then (base_hyp s t && pk_sane (with_column td col))%bool
+           else (ci_exact s t && unique_table s t && Nat.eqb (position_ci (c_name col) (snd (the_pk td)) 1) 0)%bool)%bool
+      | None => false
+      end
+  | DeleteColumn t col =>
+      match find_table t s with
+      | Some td => (base_hyp s t && delcol_takes_temp td t col && forallb (delcol_ok col) (t_constraints td)
+                    && pk_sane (without_column td col))%bool
+      | None => false
+      end
+  | AddConstraint t k =>
+      if index_like k then ci_exact s t
+      else match find_table t s with
+           | Some td =>
+               (base_hyp s t && negb (contains_constraint k (t_constraints td))
+                && negb (existsb (fun c0 => constraints_overlap c0 k) (t_constraints td))
+                && forallb (fun k0 => negb (contains_constraint k0 (pending_for a r))) (t_constraints td)
+                && pk_sane (add_constraint_to k td)
+                && match k with CForeignKey _ _ rt _ _ _ => negb (ieq rt (temp_name t)) | _ => true end)%bool
+           | None => false
+           end
+  | RemoveConstraint t k =>
+      match k with
+      | CIndex _ _ => (unique_table s t && name_owner_ok s t k)%bool
+      | CPrimaryKey _ _ => false
+      | _ => match find_table t s with
+             | Some td =>
+                 (base_hyp s t
+                  && forallb (fun c0 => Bool.eqb (keep_after_remove k c0) (negb (constraint_eqb c0 k))) (t_constraints td)
+                  && pk_sane (mkTable (t_name td) (t_description td) (t_columns td)
+                                      (filter (fun c0 => negb (constraint_eqb c0 k)) (t_constraints td))))%bool
+             | None => false
+             end
+      end
   | ModifyColumnNullable t col b _ => rebuild_hyp s t (fun td => modified td col (set_nullable b))
   | ModifyColumnDefault t col d => rebuild_hyp s t (fun td => modified td col (set_default (option_map DStr d)))
   | ModifyColumnType t col ty _ => rebuild_hyp s t (fun td => modified td col (set_type ty))
+  | ModifyColumnComment _ _ _ => true
+  | RenameTable from _ =>
+      match find_table from s with
+      | Some td => (ci_exact s from && unique_table s from && negb (existsb index_like (t_constraints td))
+                    && no_enum_cols td && no_ref_ci s from)%bool
+      | None => false
+      end
   | RawSql _ => true
-  | _ => false
+  | RenameColumn _ _ _ => false
   end.
 
 Fixpoint plan_hyp (s : schema) (acts : list action) : bool :=
   match acts with
   | [] => true
-  | a :: r => (step_hyp s a && match apply_action s a with Ok s' => plan_hyp s' r | Err _ => false end)%bool
+  | a :: r => (step_hyp s r a && match apply_action s a with Ok s' => plan_hyp s' r | Err _ => false end)%bool
   end.
 
 (* raw statements have no catalog effect; dropping the empty ones changes nothing *)
@@ -44,12 +97,20 @@ Proof.
   cbn [exec]. destruct (negb (String.eqb text "")) eqn:E; cbn [exec_all exec] in H; eapply IH; exact H.
 Qed.
 
+(* gen does not look at the pending set except in the rebuilding AddConstraint *)
+Lemma gen_pending_irrelevant s P a :
+  match a with AddConstraint _ k => index_like k = true | _ => True end -> gen s P a = gen s [] a.
+Proof. destruct a; try reflexivity. intro H. cbn [gen]. unfold gen_add_constraint. destruct constraint; try discriminate; reflexivity. Qed.
+
+Ltac split_hyp H :=
+  repeat match type of H with (_ && _)%bool = true => let H' := fresh "Hh" in apply andb_prop in H as [H H'] end.
+
 (* one step *)
-Lemma sim_step : forall fk s c a pending s' l c',
-  Sim s c -> step_hyp s a = true -> apply_action s a = Ok s' ->
-  gen s pending a = GOk l -> exec_all fk c l 0 = Ok c' -> Sim s' c'.
+Lemma sim_step : forall fk s c a r s' l c',
+  Sim s c -> step_hyp s r a = true -> apply_action s a = Ok s' ->
+  gen s (pending_for a r) a = GOk l -> exec_all fk c l 0 = Ok c' -> Sim s' c'.
 Proof.
-  intros fk s c a pending s' l c' HS Hh Happ Hgen Hrun.
+  intros fk s c a r s' l c' HS Hh Happ Hgen Hrun.
   destruct a; cbn [step_hyp] in Hh; try discriminate.
   - (* CreateTable *)
     destruct (normalize (mkTable table None columns constraints)) as [n|] eqn:N; [|discriminate].
@@ -60,23 +121,59 @@ Proof.
   - (* DeleteTable *)
     cbn [apply_action] in Happ. destruct (has_table table s); [|discriminate]. injection Happ as <-.
     cbn [gen] in Hgen. injection Hgen as <-. eapply sim_sqlite_delete_table; eauto.
+  - (* AddColumn *)
+    rewrite gen_pending_irrelevant in Hgen by exact I.
+    destruct (find_table table s) as [td|] eqn:F; [|discriminate]. apply andb_prop in Hh as [Hst Hh].
+    destruct (negb (c_nullable column) || is_enum_type (c_type column))%bool eqn:Re.
+    + unfold base_hyp in Hh. split_hyp Hh. eapply sim_sqlite_add_column_rebuild; eauto.
+    + split_hyp Hh. apply Bool.orb_false_iff in Re as [Re1 Re2]. apply Bool.negb_false_iff in Re1.
+      eapply sim_sqlite_add_column_plain; eauto. now apply Nat.eqb_eq.
+  - (* DeleteColumn, rebuild path *)
+    destruct (find_table table s) as [td|] eqn:F; [|discriminate]. unfold base_hyp in Hh. split_hyp Hh.
+    assert (G : delete_column_temp table column td = GOk l).
+    { cbn [gen] in Hgen. unfold gen_delete_column in Hgen. rewrite F in Hgen. unfold delcol_takes_temp in Hh2.
+      destruct (find_col column (t_columns td)) as [cd|].
+      - destruct (is_enum_type (c_type cd)); [exact Hgen|]. cbn [orb] in Hh2.
+        destruct (delete_column_scan table column (t_constraints td) []); [exact Hgen|discriminate].
+      - cbn [orb] in Hh2. destruct (delete_column_scan table column (t_constraints td) []); [exact Hgen|discriminate]. }
+    eapply sim_sqlite_delete_column_rebuild; eauto.
   - (* ModifyColumnType *)
+    rewrite gen_pending_irrelevant in Hgen by exact I.
     unfold rebuild_hyp in Hh. destruct (find_table table s) as [td|] eqn:F; [|rewrite Bool.andb_false_r in Hh; discriminate].
-    apply andb_prop in Hh as [Hh H4]. apply andb_prop in Hh as [Hh H3]. apply andb_prop in Hh as [H1 H2].
-    eapply sim_sqlite_modify_type; eauto.
+    split_hyp Hh. eapply sim_sqlite_modify_type; eauto.
   - (* ModifyColumnNullable *)
+    rewrite gen_pending_irrelevant in Hgen by exact I.
     unfold rebuild_hyp in Hh. destruct (find_table table s) as [td|] eqn:F; [|rewrite Bool.andb_false_r in Hh; discriminate].
-    apply andb_prop in Hh as [Hh H4]. apply andb_prop in Hh as [Hh H3]. apply andb_prop in Hh as [H1 H2].
-    eapply sim_sqlite_modify_nullable; eauto.
+    split_hyp Hh. eapply sim_sqlite_modify_nullable; eauto.
   - (* ModifyColumnDefault *)
+    rewrite gen_pending_irrelevant in Hgen by exact I.
     unfold rebuild_hyp in Hh. destruct (find_table table s) as [td|] eqn:F; [|rewrite Bool.andb_false_r in Hh; discriminate].
-    apply andb_prop in Hh as [Hh H4]. apply andb_prop in Hh as [Hh H3]. apply andb_prop in Hh as [H1 H2].
-    eapply sim_sqlite_modify_default; eauto.
-  - (* AddConstraint of an index / unique *)
-    apply andb_prop in Hh as [H1 H2].
-    cbn [gen] in Hgen. unfold gen_add_constraint in Hgen.
-    assert (l = index_stmt table constraint) by (destruct constraint; try discriminate; now injection Hgen).
-    subst l. eapply sim_sqlite_add_index; eauto.
+    split_hyp Hh. eapply sim_sqlite_modify_default; eauto.
+  - (* ModifyColumnComment *)
+    rewrite gen_pending_irrelevant in Hgen by exact I. eapply sim_sqlite_modify_comment; eauto.
+  - (* AddConstraint *)
+    destruct (index_like constraint) eqn:IL.
+    + cbn [gen] in Hgen. unfold gen_add_constraint in Hgen.
+      assert (l = index_stmt table constraint) by (destruct constraint; try discriminate; now injection Hgen).
+      subst l. eapply sim_sqlite_add_index; eauto.
+    + destruct (find_table table s) as [td|] eqn:F; [|discriminate]. unfold base_hyp in Hh. split_hyp Hh.
+      repeat match goal with H : negb _ = true |- _ => apply Bool.negb_true_iff in H end.
+      eapply (sim_sqlite_add_constraint_rebuild fk s c table constraint (pending_for (AddConstraint table constraint) r) td); eauto.
+      destruct constraint; try exact I. match goal with H : negb _ = true |- _ => now apply Bool.negb_true_iff in H end.
+  - (* RemoveConstraint *)
+    rewrite gen_pending_irrelevant in Hgen by exact I.
+    destruct constraint as [a pc|n uc|n fc rt rc od ou|n e|n ic]; try discriminate.
+    + destruct (find_table table s) as [td|] eqn:F; [|discriminate]. unfold base_hyp in Hh. split_hyp Hh.
+      eapply (sim_sqlite_remove_constraint_rebuild fk s c table (CUnique n uc) td); eauto; exact I.
+    + destruct (find_table table s) as [td|] eqn:F; [|discriminate]. unfold base_hyp in Hh. split_hyp Hh.
+      eapply (sim_sqlite_remove_constraint_rebuild fk s c table (CForeignKey n fc rt rc od ou) td); eauto; exact I.
+    + destruct (find_table table s) as [td|] eqn:F; [|discriminate]. unfold base_hyp in Hh. split_hyp Hh.
+      eapply (sim_sqlite_remove_constraint_rebuild fk s c table (CCheck n e) td); eauto; exact I.
+    + split_hyp Hh. eapply (sim_sqlite_remove_index fk s c table n ic); eauto.
+  - (* RenameTable *)
+    destruct (find_table from s) as [td|] eqn:F; [|discriminate]. split_hyp Hh.
+    repeat match goal with H : negb _ = true |- _ => apply Bool.negb_true_iff in H end.
+    cbn [gen] in Hgen. injection Hgen as <-. eapply sim_sqlite_rename_table; eauto.
   - (* RawSql *)
     cbn [apply_action] in Happ. injection Happ as <-. cbn [gen] in Hgen. injection Hgen as <-.
     cbn [exec_all exec] in Hrun. now injection Hrun as <-.
@@ -169,4 +266,29 @@ Definition demo_history : list (list action) :=
 Lemma demo_history_runs :
   (exists r, run_history true [] empty_catalog demo_history = Some r)
   /\ (exists r, run_history false [] empty_catalog demo_history = Some r).
+Proof. split; eexists; vm_compute; reflexivity. Qed.
+
+(* a second history through the remaining covered kinds: AddColumn (both paths), AddConstraint foreign key and check (rebuild
+   with a pending index), RemoveConstraint (index, unique, foreign key), ModifyColumnComment, DeleteColumn (rebuild),
+   RenameTable *)
+Definition demo_history2 : list (list action) :=
+  [[CreateTable "u" [mkCol "id" (TSimple Integer) false None None None None None None] [CPrimaryKey false ["id"]];
+    CreateTable "p" [mkCol "id" (TSimple Integer) false None None None None None None;
+                     mkCol "u_id" (TSimple Integer) true None None None None None None;
+                     mkCol "e" (TEnum "lvl" (EVString ["a"; "b"])) true None None None None None None]
+      [CPrimaryKey false ["id"]; CUnique None ["u_id"]]];
+   [AddColumn "p" (mkCol "n" (TSimple Text) true None None None None None None) None;
+    AddColumn "p" (mkCol "m" (TSimple Integer) false (Some (DInt 0)) None None None None None) None;
+    AddConstraint "p" (CForeignKey None ["u_id"] "u" ["id"] (Some Cascade) None);
+    AddConstraint "p" (CCheck "ck1" "m > 0");
+    AddConstraint "p" (CIndex None ["n"]);
+    ModifyColumnComment "p" "n" (Some "note")];
+   [RemoveConstraint "p" (CIndex None ["n"]);
+    RemoveConstraint "p" (CUnique None ["u_id"]);
+    RemoveConstraint "p" (CForeignKey None ["u_id"] "u" ["id"] (Some Cascade) None);
+    DeleteColumn "p" "e";
+    RenameTable "u" "v"]].
+Lemma demo_history2_runs :
+  (exists r, run_history true [] empty_catalog demo_history2 = Some r)
+  /\ (exists r, run_history false [] empty_catalog demo_history2 = Some r).
 Proof. split; eexists; vm_compute; reflexivity. Qed.
